@@ -144,7 +144,7 @@ def root_object(e):
         k = e.get('k')
         if k in ('MemberExpr', 'ArraySubscriptExpr'):
             e = e['b']
-        elif k == 'UnaryOperator' and e['op'] in ('*', '&'):
+        elif k == 'UnaryOperator' and e['op'] in ('*', '&', '++', '--'):
             e = e['e']
         elif k and k.endswith('CastExpr') and 'e' in e:
             e = e['e']
